@@ -15,7 +15,7 @@ func GenUniverse(t *rapid.T, maxPlain, minRel, maxRel int) *Universe {
 	if rapid.IntRange(0, 3).Draw(t, "relbias") != 0 && nr == 0 && maxRel > 0 {
 		nr = 1
 	}
-	u.Plain = drawDistinct(t, len(PlainPool), np, "plain")
+	u.Plain = drawDistinct(t, HugePlain, np, "plain")
 	u.Rel = drawDistinct(t, len(RelPool), nr, "rel")
 	n := np + nr
 	limit := ecs.MaskTotalBits
@@ -50,6 +50,13 @@ func GenUniverse(t *rapid.T, maxPlain, minRel, maxRel int) *Universe {
 	u.Cap = rapid.SampledFrom([]int{1, 1, 2, 2, 3, 4, 8, 128}).Draw(t, "cap")
 	u.RCap = rapid.SampledFrom([]int{0, 0, 1, 2, 5}).Draw(t, "rcap")
 	u.FullRes = rapid.IntRange(0, 999).Draw(t, "fullres")%12 == 5
+	if rapid.IntRange(0, 999).Draw(t, "huge")%20 == 9 {
+		// one component type larger than 64 KiB (tables stay small: capacity increment <= 8)
+		u.Plain[rapid.IntRange(0, np-1).Draw(t, "hugeat")] = HugePlain
+		if u.Cap > 8 {
+			u.Cap = 8
+		}
+	}
 	return u
 }
 
@@ -667,7 +674,7 @@ func (g *Gen) drawKind(t *rapid.T, k string) (Op, bool) {
 	case OpCacheIll:
 		used, _ := g.regSlots()
 		if m.NStale > 0 && (len(used) == 0 || rapid.Bool().Draw(t, "stale")) {
-			return Op{K: k, Ill: "cache", Slot: rapid.IntRange(0, m.NStale-1).Draw(t, "staleidx"), V: 2}, true
+			return Op{K: k, Ill: "cache", Slot: rapid.IntRange(0, m.NStale-1).Draw(t, "staleidx"), V: rapid.IntRange(2, 4).Draw(t, "stalehow")}, true
 		}
 		if len(used) == 0 {
 			return Op{}, false
